@@ -488,12 +488,22 @@ def replay_gating(d):
         open(os.path.join(out, "keep.txt"), "w").write("pre-existing")
         recs = [{"type": t, "path": os.path.join(out, f"gen{i}.txt"), "contents": f"contents {i}"}
                 for i, t in enumerate(d["record_types"])]
+        for rec, pre in zip(recs, d.get("pre_existing") or []):
+            if pre and pre.get("exists"):
+                stale = ("x" * len(rec["contents"])) if pre.get("same_size") else "stale"
+                open(rec["path"], "w").write(stale)
         table = d["verdicts"]
+        if d.get("history"):
+            fcp_vstub.CONFIG.update({"checks": [], "records": [], "calls": [], "verdict": lambda ci, cat, k: True})
+            gm0 = GeneratorManager(make_general_verifier())
+            gm0.generate("vstub", None, None, fcp, out)
+        else:
+            gm0 = None
         fcp_vstub.CONFIG.update({"checks": d["checks"], "records": recs, "calls": [],
                                  "verdict": lambda ci, cat, k: table.get(f"{ci}/{k}", True)})
         before = _snapshot(out)
         try:
-            r = GeneratorManager(make_general_verifier()).generate("vstub", None, None, fcp, out)
+            r = (gm0 or GeneratorManager(make_general_verifier())).generate("vstub", None, None, fcp, out)
         except Exception as e:
             return True, f"generate raised {type(e).__name__}: {e}"
         after = _snapshot(out)
